@@ -144,10 +144,12 @@ class dtype:
         elif kind == "?":
             code = "b1"
         else:
-            if kind == "b":
-                kind = "i"
-                size = size or "1"
-            code = kind + (size or "8")
+            if kind == "b" and size == "1":
+                code = "b1"  # numpy: 'b1' is bool, plain 'b' is int8
+            elif kind == "b":
+                code = "i1"
+            else:
+                code = kind + (size or "8")
         if code not in _SCALAR_SIZES:
             raise UnsupportedInShim(f"dtype string {s!r}")
         if shp:
@@ -1467,7 +1469,27 @@ def array_equal(a1, a2, equal_nan=False):
     if a1.shape != a2.shape:
         return False
     if equal_nan:
-        raise UnsupportedInShim("array_equal(equal_nan=True)")
+        if a1._structured or a2._structured:
+            raise UnsupportedInShim("array_equal on structured arrays")
+        code = _common_code(a1.dtype.code, a2.dtype.code)
+        if code[0] != "f":
+            return (a1 == a2).all()
+        w = _fw(code)
+        conj = []
+        for p, q in zip(a1._idx, a2._idx):
+            x = to_leaf(_leaf_as_value(a1._buf[p], a1.dtype.code), code, False)
+            y = to_leaf(_leaf_as_value(a2._buf[q], a2.dtype.code), code, False)
+            e = leaf_eq(x, y, code)
+            nx, ny = _isnan_leaf(x, w), _isnan_leaf(y, w)
+            r = E.s_or(e if isinstance(e, bool) else SBool(e), E.s_and(nx, ny))
+            if r is True:
+                continue
+            if r is False:
+                return False
+            conj.append(r.e)
+        if not conj:
+            return True
+        return mkbool(z3.And(*conj))
     r = (a1 == a2).all()
     return r
 
@@ -1482,6 +1504,18 @@ def _close_fn(w):
     return _CLOSE[w]
 
 
+def far_e(a, b, w: int):
+    """Sufficient condition for NOT isclose(a, b) with numpy's default tolerances:
+    opposite signs and both magnitudes >= 1.  Then |a-b| = |a|+|b| >= 1+|b| which
+    exceeds atol + rtol*|b| = 1e-8 + 1e-5*|b| (also when the subtraction overflows)."""
+    bias = 127 if w == 32 else 1023
+    fa, fb = SFloat(w, a), SFloat(w, b)
+    ea, _ = fa._exp_frac
+    eb, _ = fb._exp_frac
+    sa, sb = z3.Extract(w - 1, w - 1, a), z3.Extract(w - 1, w - 1, b)
+    return z3.And(sa != sb, z3.UGE(ea, bias), z3.UGE(eb, bias), z3.Not(fa.isnan_e()), z3.Not(fb.isnan_e()))
+
+
 def close_e(a, b, w: int, equal_nan: bool):
     """Abstract np.isclose on float bits (DESIGN §1.3): identical non-NaN values are
     close; NaN is close only to NaN under equal_nan; an infinity is close only to the
@@ -1492,7 +1526,7 @@ def close_e(a, b, w: int, equal_nan: bool):
     ia, ib = fa.isinf_e(), fb.isinf_e()
     eq = fa.fp_eq_e(fb)
     fin = z3.And(z3.Not(na), z3.Not(nb), z3.Not(ia), z3.Not(ib))
-    r = z3.Or(eq, z3.And(fin, _close_fn(w)(a, b)))
+    r = z3.Or(eq, z3.And(fin, z3.Not(far_e(a, b, w)), _close_fn(w)(a, b)))
     if equal_nan:
         r = z3.Or(r, z3.And(na, nb))
     return r
